@@ -88,7 +88,7 @@ pub mod regex {
     #[verifier::external_body] pub fn escape(p: &String) -> String { unimplemented!() }
     } // verus!
 }
-pub use regex::RegexBuilder;
+pub use regex::{Regex, RegexBuilder};
 #[verifier::external_body] pub fn contains_nul(s: &String) -> bool { unimplemented!() }
 #[verifier::external_body] pub fn trim_eol(s: &String) -> &str { unimplemented!() }
 pub struct WalkBuilder { pub filler: u8 }
